@@ -25,6 +25,12 @@ MIN_CHECKS = {'quick': 6000, 'thorough': 150000}
 REQUIRED_COUNTERS = ['chk:hist_bins', 'chk_hist_centre_linear', 'chk_hist_centre_log', 'chk:list-vs-single', 'chk:refusal', 'chk:history', 'chk:form']
 
 
+def fresh_like(s):
+    """the same values and settings in an object no request was ever made of (pickle round trip)."""
+    import pickle
+    return pickle.loads(pickle.dumps(s))
+
+
 def run(ctx):
     F = core.import_flowcal()
     mon = monitors.Monitors(ctx, F)
@@ -172,6 +178,28 @@ def run(ctx):
             if not o1.raised and not o2.raised:
                 ctx.check(np.array_equal(np.asarray(o1.value), np.asarray(o2.value)), 'hist_bins:answer-depends-on-earlier-calls', cid,
                           sequence=seq, state=state)
+        # history: the caller edits the events of its own sample in place between two identical requests; the second answer is
+        # that of the values the sample holds then (logicle edges follow the most negative event; each call is judged in situ)
+        if rng.random() < 0.6:
+            se = fresh()
+            if se.dtype.kind == 'f' and rng.random() < 0.7:
+                pe = int(rng.integers(D))
+                q = (pe if rng.random() < 0.5 else [pe, (pe + 1) % D], 32, 'logicle')
+                o1 = core.attempt(lambda: se.hist_bins(*q))
+                se[:, pe] = -np.abs(np.asarray(se[:, pe])) * float(rng.choice([0.5, 3.0])) - 50.0
+                etag = 'channel-made-negative'
+            else:
+                q = (None if rng.random() < 0.5 else int(rng.integers(D)), 32, str(rng.choice(['logicle', 'log', 'linear'])))
+                o1 = core.attempt(lambda: se.hist_bins(*q))
+                etag = zoo.edit_in_place(rng, se)
+            o2 = core.attempt(lambda: se.hist_bins(*q))
+            o3 = core.attempt(lambda: fresh_like(se).hist_bins(*q))
+            ctx.counters['chk:history:edit-in-place'] += 1
+            if not o2.raised and not o3.raised:
+                a2 = o2.value if isinstance(o2.value, list) else [o2.value]
+                a3 = o3.value if isinstance(o3.value, list) else [o3.value]
+                ctx.check(len(a2) == len(a3) and all(np.array_equal(np.asarray(x), np.asarray(y), equal_nan=True) for x, y in zip(a2, a3)),
+                          'hist_bins:answer-of-earlier-values', cid, edit=etag, query=core.jsonable(list(q)), state=state)
         # unknown scale is refused
         for bad in ('lin', 'Logicle', 'symlog', None, 3):
             s = fresh()
